@@ -47,13 +47,21 @@ def run(tier):
     pa, pb = os.path.join(wd, "a.ndjson"), os.path.join(wd, "b.ndjson")
     vlib.vh(["repro", "run", "--seeds", sl, "--ops", ops, "--tag", "A", "--reps", 2, "--out", pa])
     vlib.vh(["repro", "run", "--seeds", sl, "--ops", ops, "--tag", "B", "--order", "reverse", "--out", pb])
+    # third process: the harnesses that do I/O against simulated stores, with real time passing between blocks
+    pc = os.path.join(wd, "c.ndjson")
+    slow_h = "streaming/calm,streaming/moderate,streaming/chaos,compaction/calm,compaction/aggressive,compaction/chaos"
+    slow_seeds = ",".join(str(s) for s in seeds[:6 if thorough else 2])
+    vlib.vh(["repro", "run", "--harness", slow_h, "--seeds", slow_seeds, "--ops", ops, "--tag", "S", "--slow", 130, "--out", pc])
     runs = load(pa)
     runs.update(load(pb))
+    runs.update(load(pc))
     keys = sorted({(h, s) for (h, s, _) in runs})
     recs, raw = [], {}
     steps = 0
     for (h, s) in keys:
-        for rel, ta, tb in (("same_process", "A1", "A2"), ("other_process", "A1", "B")):
+        for rel, ta, tb in (("same_process", "A1", "A2"), ("other_process", "A1", "B"), ("other_process_slow", "A1", "S")):
+            if (h, s, tb) not in runs:
+                continue
             a, b = runs.get((h, s, ta), []), runs.get((h, s, tb), [])
             n = len(recs) + 1
             recs.append({"run": n, "h": h, "seed": s, "rel": rel, "a": ta, "b": tb,
@@ -88,5 +96,5 @@ def run(tier):
     rep.assumptions += ["a run's trace is what the harness exposes: last operation per step where available (executor, list, set, hash, sorted set, transaction), the running result otherwise, and the final state dump / result / verdict",
                         "Debug renderings are compared after sorting the members of every {...} group",
                         "two processes differ in hash seeds, allocator state and the order in which the harnesses ran; wall-clock dependence shows only if it changes a logged value"]
-    os.remove(pa); os.remove(pb)
+    os.remove(pa); os.remove(pb); os.remove(pc)
     return rep.finish()
